@@ -336,6 +336,9 @@ pub trait KemOps: Send + Sync {
     /// this thread; then each remembered private key is parsed afresh and its public key recomputed.
     /// Returns (objects constructed, mismatches).
     fn key_mill(&self, ikm: &[u8], n: u64, window: usize) -> (u64, u64);
+    /// Encapsulates, parks the shared secret in a heap box, scans the process for it, drops it, scans again.
+    /// Returns the two scan summaries.
+    fn residue_kem(&self, pkr: &[u8], rng: &mut ScriptRng) -> R<(String, String)>;
     /// Display and Debug renderings of every error variant (feature sets must agree on them)
     fn error_strings(&self) -> Vec<String>;
 }
@@ -424,6 +427,18 @@ where
             hs.into_iter().map(|h| h.join().expect("storm thread panicked")).sum()
         });
         (bad, (keys.len() * reps) as u64)
+    }
+    fn residue_kem(&self, pkr: &[u8], rng: &mut ScriptRng) -> R<(String, String)> {
+        let pkr = at(M::PublicKey::from_bytes(pkr), "pkr")?;
+        let (ss, _enc) = at(M::encap(&pkr, None, rng), "")?;
+        let boxed = Box::new(ss);
+        let mut m = boxed.0.to_vec();
+        crate::residue::mask_in_place(&mut m);
+        let masked = vec![m];
+        let before = crate::residue::scan(&masked);
+        drop(boxed);
+        let after = crate::residue::scan(&masked);
+        Ok((crate::residue::summary(&["ss"], &before), crate::residue::summary(&["ss"], &after)))
     }
     fn key_mill(&self, ikm: &[u8], n: u64, window: usize) -> (u64, u64) {
         let keys: Vec<(Vec<u8>, Vec<u8>)> = (0..window)
